@@ -94,7 +94,9 @@ def run(ctx):
                                       Atom('NP', UnaryFeature('conj')), Atom('S', UnaryFeature('LRB')), Atom('N', UnaryFeature('RRB')),
                                       # one-part features that contain a comma or an equals sign, but not both
                                       Atom('S', UnaryFeature('a,b,c')), Atom('NP', UnaryFeature('x,y')), Atom('N', UnaryFeature('k=v')),
-                                      Atom('S', UnaryFeature('p,q,r,s')), Atom('PP', UnaryFeature('a=b=c'))]
+                                      Atom('S', UnaryFeature('p,q,r,s')), Atom('PP', UnaryFeature('a=b=c')),
+                                      # underscores and braces-free bank-like spellings in atom names and features
+                                      Atom('N_sg'), Atom('NP_1'), Atom('X_'), Atom('N_none'), Atom('S', UnaryFeature('a_b')), Atom('_N')]
     ja_atoms = gen_cat.ja_atoms(small=True)
     uni = gen_cat.universe(en_atoms, 2) + gen_cat.universe(ja_atoms, 2)
     uni3 = gen_cat.universe(gen_cat.en_atoms(bases=['S', 'NP', ','], feats=[None, 'X', 'dcl']), 3) \
